@@ -339,7 +339,8 @@ PROFILES = {
               'buffer': {'ample': 95, 'wait': 5}, 'monitor': 'real',
               'dur': {1: 25, 2: 30, 3: 25, 4: 20}, 'unit': {'seconds': 90, 'custom': 10},
               'dists': ['normal', 'normal', 'poisson', 'uniform']},
-    'units': {'unit': {'custom': 60, 'minutes': 20, 'hours': 20},
+    'units': {'unit': {'custom': 60, 'minutes': 20, 'hours': 20}, 'hetero': 0.0,
+              'comp': {1: 40, 2: 30, 3: 20, 4: 10},
               'dur': {1: 40, 2: 35, 3: 25}, 'buffer': {'ample': 95, 'wait': 5},
               'nobs': {1: 45, 2: 40, 3: 15}, 'ntasks': {1: 25, 2: 30, 3: 25, 4: 20},
               'faults': {'F1': 0.0, 'F3': 0.0, 'F4': 0.0}},
